@@ -538,6 +538,20 @@ pub fn run(ops: &str, out: &mut dyn Write, mon: &mut dyn Write) {
                         outs.push(format!("add {}", ok as u8));
                         outs.extend(s.quiesce().await);
                     }
+                    "addmany" => {
+                        // addmany bin|an <start> <count> <class>: consecutive points in one go
+                        let s = st.as_mut().unwrap();
+                        let start: u16 = ws[2].parse().unwrap();
+                        let count: u16 = ws[3].parse().unwrap();
+                        let mut ok = 0;
+                        for i in 0..count {
+                            if s.add_point(if ws[1] == "bin" { "addbin" } else { "addan" }, start + i, ws[4].parse().unwrap()) {
+                                ok += 1;
+                            }
+                        }
+                        outs.push(format!("added {ok}"));
+                        outs.extend(s.quiesce().await);
+                    }
                     "txn" => {
                         let s = st.as_mut().unwrap();
                         outs = s.txn(&ws[1..]);
